@@ -93,5 +93,13 @@ func (u *URL) UnmarshalJSON(b []byte) (err error) {
 		}
 	}
 
-	return u.UnmarshalText(b[1 : l-1])
+	// Decode the JSON string instead of just stripping the quotes, since the
+	// text may contain escape sequences, e.g. "\u0026" for an ampersand.
+	var s string
+	err = json.Unmarshal(b, &s)
+	if err != nil {
+		return err
+	}
+
+	return u.UnmarshalText([]byte(s))
 }
